@@ -49,6 +49,8 @@ type Server struct {
 	fail     int
 	gates    map[string]chan struct{}
 	log      []Query
+	onQuery  func(Query)
+	epoch    int // bumped by Reset: answers computed for an older epoch are neither logged nor sent
 }
 
 // NewServer starts a server answering from z.
@@ -64,8 +66,21 @@ func NewServer(z *Zone) *Server {
 // Close shuts the server down and releases every blocked query.
 func (s *Server) Close() { s.Release(); s.ts.Close() }
 
+// Reset makes the server as new with universe z (log, sequence counter,
+// version, gates, failure switch and hook cleared), so that one listener can
+// serve many consecutive cases. Queries still in flight from before the Reset
+// are dropped (HTTP 400, not logged).
+func (s *Server) Reset(z *Zone) {
+	s.Release()
+	s.mu.Lock()
+	defer s.mu.Unlock()
+	s.zone, s.version, s.fail, s.log, s.onQuery = z, 0, FailNone, nil, nil
+	s.epoch++
+	s.seq.Store(0)
+}
+
 // SetZone replaces the universe; Update edits it under the server's lock.
-func (s *Server) SetZone(z *Zone)       { s.mu.Lock(); s.zone = z; s.mu.Unlock() }
+func (s *Server) SetZone(z *Zone)        { s.mu.Lock(); s.zone = z; s.mu.Unlock() }
 func (s *Server) Update(f func(z *Zone)) { s.mu.Lock(); f(s.zone); s.mu.Unlock() }
 
 // Bump increments the zone version (all Auto addresses change) and returns it.
@@ -76,6 +91,11 @@ func (s *Server) Version() int { s.mu.Lock(); defer s.mu.Unlock(); return s.vers
 
 // SetFail toggles the failure switch (FailNone, FailServfail, FailHTTP400).
 func (s *Server) SetFail(mode int) { s.mu.Lock(); s.fail = mode; s.mu.Unlock() }
+
+// OnQuery installs a hook called on the handler goroutine at the arrival of
+// every query, before gates and before the answer is computed (e.g. to cancel
+// a client that exceeds a query budget).
+func (s *Server) OnQuery(f func(Query)) { s.mu.Lock(); s.onQuery = f; s.mu.Unlock() }
 
 // Block makes queries for the given names (any qtype) wait until Release.
 func (s *Server) Block(names ...string) {
@@ -228,10 +248,13 @@ func (s *Server) ServeHTTP(w http.ResponseWriter, req *http.Request) {
 		return
 	}
 	q, pq, id := Inspect(body)
-	q.Seq = s.seq.Add(1)
 	s.mu.Lock()
-	gate := s.gates[q.Name]
+	q.Seq = s.seq.Add(1)
+	gate, hook, epoch := s.gates[q.Name], s.onQuery, s.epoch
 	s.mu.Unlock()
+	if hook != nil {
+		hook(q)
+	}
 	if gate != nil {
 		select {
 		case s.arrivals <- q:
@@ -245,6 +268,10 @@ func (s *Server) ServeHTTP(w http.ResponseWriter, req *http.Request) {
 	}
 	s.mu.Lock()
 	defer s.mu.Unlock()
+	if epoch != s.epoch {
+		http.Error(w, "stale", http.StatusBadRequest)
+		return
+	}
 	q.Version, q.Status = s.version, http.StatusOK
 	var resp []byte
 	switch {
